@@ -322,6 +322,54 @@ def case_class(s):
     return bad
 
 
+def after_edit(code, name, d, cands, lang, cap, pws, dist):
+    """The ruleset is scored (above), then filtered in place with the real edit_rules.py, then scored again by a NEW scorer
+    object: the promise is about the ruleset as it is on disk now - whatever an earlier scoring run may have left behind."""
+    vio = []
+    lens = sorted(len(s) for s, _ in lang)
+    if not lens:
+        return vio
+    mx = lens[len(lens) // 2]
+    env = common.subenv()
+    env["PYTHONPATH"] = code
+    p = subprocess.run([common.PY, "edit_rules.py", "-r", name, "--max_length", str(max(1, mx))], cwd=code, env=env,
+                       stdin=subprocess.DEVNULL, stdout=subprocess.PIPE, stderr=subprocess.PIPE, timeout=120)
+    if p.returncode != 0:
+        return vio
+    sc2 = load_scorer(d)
+    try:
+        g2 = load_guesser(name, d)
+    except Exception:      # noqa: BLE001
+        return vio
+    if sc2 is None:
+        return [{"sig": "C13:scorer-cannot-load", "what": "the scorer cannot load the ruleset after edit_rules.py", "replay": {"training": pws, "edit_max_length": mx}}]
+    lang2, _ = language(g2, cap)
+    if lang2 is None:
+        return vio
+    dist["rulesets_rescored_after_edit"] += 1
+    dist["guesses_removed_by_edit"] += len(lang) - len(lang2)
+    by2 = {}
+    for s, q in lang2:
+        by2.setdefault(s, []).append(q)
+    for s in cands:
+        try:
+            _, cat, prob, _ = sc2.parse(s)
+        except Exception:  # noqa: BLE001
+            continue
+        prob = float(prob)
+        if prob != 0:
+            qs = by2.get(s)
+            if not qs or min(abs(q - prob) / prob for q in qs) > TOL:
+                if case_class(s):
+                    continue        # R16 (letters whose case mapping is not one-to-one) is judged in the main loop
+                vio.append({"sig": "C13:nonzero-not-generated:after-edit",
+                            "what": "after edit_rules.py --max_length %d the score of %r is %r, but the guesser on the edited ruleset %s"
+                                    % (mx, s, prob, "never emits it" if not qs else "emits it with %r" % qs[:3]),
+                            "replay": {"training": pws, "string": s, "edit_max_length": mx}})
+                break
+    return vio
+
+
 def run(ctx):
     rng = ctx.rng
     n_rs = ctx.scale(24, 300)
@@ -475,6 +523,8 @@ def run(ctx):
         if len(samples) < 3:
             nz = [(s, r[1]) for s, r in scored if r and r[1] != 0][:3]
             samples.append({"training": pws[:8], "nonzero": nz, "language": len(lang)})
+        if i % 3 == 0:
+            vio += after_edit(code, "V%d" % i, d, cands, lang, cap, pws, dist)
     for name, idx, log in common.run_case_shards("C13", shards):
         if name.startswith("v"):
             ok = idx == []
@@ -499,7 +549,8 @@ def run(ctx):
             "context strings, keyboard walks, characters with unusual case mappings, e-mails / URLs); every candidate "
             "(training passwords, guesses of the real guesser, case / digit / symbol perturbations, look-alike letters with a "
             "non one-to-one case mapping, unrelated strings) is scored twice by the real PCFGPasswordScorer and checked against "
-            "the language enumerated with the real PcfgGrammar; non-trivial = non-zero score; distinct by string")
+            "the language enumerated with the real PcfgGrammar; every third ruleset is then filtered in place with the real edit_rules.py and "
+            "scored again by a new scorer object against the language of the edited ruleset; non-trivial = non-zero score; distinct by string")
     return {"evaluations": evaluations, "distinct_nontrivial": len(nontrivial), "rule": rule, "samples": samples,
             "dist": dict(dist), "corr": corr, "violations": dedup(vio)}
 
@@ -529,6 +580,11 @@ def replay(ctx, data):
     for s, p in lang:
         by_s.setdefault(s, []).append(p)
     out = []
+    if "edit_max_length" in inp:
+        sc.parse(inp.get("string", "x"))
+        from collections import Counter as _C
+        return after_edit(code, "V0", d, [inp["string"]] if "string" in inp else list(dict.fromkeys(inp["training"])), lang, 10 ** 6,
+                          inp["training"], _C())
     strings = [inp["string"]] if "string" in inp else list(dict.fromkeys(inp["training"]))
     for s in strings:
         _, cat, p, _ = sc.parse(s)
